@@ -7,7 +7,11 @@ Depending on the service_type_ident different types of body classes are instanti
 
 from __future__ import annotations
 
-from xknx.exceptions import CouldNotParseKNXIP, IncompleteKNXIPFrame
+from xknx.exceptions import (
+    ConversionError,
+    CouldNotParseKNXIP,
+    IncompleteKNXIPFrame,
+)
 
 from .body import KNXIPBody
 from .connect_request import ConnectRequest
@@ -146,7 +150,13 @@ class KNXIPFrame:
             raise CouldNotParseKNXIP(
                 f"KNXIPServiceType not implemented: {header.service_type_ident.name}"
             )
-        body.from_knx(raw_body)
+        try:
+            body.from_knx(raw_body)
+        except (ConversionError, IndexError, ValueError) as err:
+            # unknown enum codes, bodies shorter than their fixed part, invalid SRPs
+            raise CouldNotParseKNXIP(
+                f"Invalid {header.service_type_ident.name} body: {err!r}"
+            ) from err
         return KNXIPFrame(header=header, body=body), data[header.total_length :]
 
     def to_knx(self) -> bytes:
